@@ -12,6 +12,7 @@ import (
 	"fmt"
 	"sort"
 	"strings"
+	"sync"
 	"testing"
 	"time"
 
@@ -276,8 +277,75 @@ func runHCase(c HCase) vkit.Result {
 		r.Labels = append(r.Labels, l)
 	}
 	sort.Strings(r.Labels)
-	_ = strings.TrimSpace
 	return r
 }
 
 func TestKeyHistory(t *testing.T) { vkit.Check(t, genHCase, runHCase) }
+
+// TestKeygenConcurrent: several connections request keys at the same time (valid requests of different shapes mixed
+// with requests for malformed channels, which are refused). Every issued key must be exactly the one its own request
+// asked for - never another request's permissions, channel or expiry.
+func TestKeygenConcurrent(t *testing.T) {
+	rounds := vkit.N(6)
+	for round := 0; round < rounds; round++ {
+		v := 1 + round%3
+		e := getEnv(v)
+		const G = 8
+		type reqT struct {
+			ch   string
+			perm uint8
+			ttl  int64
+			ok   bool
+		}
+		shapes := []reqT{{"a/", security.AllowRead, 0, true}, {"seed/b/#/", security.AllowReadWrite | security.AllowStore | security.AllowLoad | security.AllowPresence | security.AllowExtend, 0, true},
+			{"x/y/z/", security.AllowWrite, 7200, true}, {"a/b/", security.AllowLoad | security.AllowRead, 0, true}, {"nochannel", security.AllowRead, 0, false},
+			{strings.Repeat("l/", 24), security.AllowReadWrite, 0, false}, {"c/", security.AllowPresence, 86400, true}, {"", security.AllowRead, 0, false}}
+		var wg sync.WaitGroup
+		errs := make(chan string, G)
+		for g := 0; g < G; g++ {
+			wg.Add(1)
+			go func(g int) {
+				defer wg.Done()
+				for it := 0; it < 300; it++ {
+					r := shapes[(g+it*3)%len(shapes)]
+					exp := time.Unix(0, 0)
+					t0 := time.Now().Unix()
+					if r.ttl != 0 {
+						exp = time.Now().Add(time.Duration(r.ttl) * time.Second)
+					}
+					out, err := e.b.S.VerifKeygen().CreateKey(e.b.Master, r.ch, r.perm, exp)
+					if (err == nil) != r.ok {
+						errs <- fmt.Sprintf("key request for %q: error %v, expected success=%v", r.ch, err, r.ok)
+						return
+					}
+					if err != nil {
+						continue
+					}
+					k, derr := e.b.S.VerifKeygen().DecryptKey(out)
+					if derr != nil {
+						errs <- fmt.Sprintf("issued key does not decrypt: %v", derr)
+						return
+					}
+					path, h := targetBytes(r.ch)
+					gotPath := uint32(k[12])<<16 | uint32(k[13])<<8 | uint32(k[14])
+					gotHash := uint32(k[16])<<24 | uint32(k[17])<<16 | uint32(k[18])<<8 | uint32(k[19])
+					expOK := (r.ttl == 0 && k.Expires().Equal(time.Unix(0, 0))) || (r.ttl != 0 && k.Expires().Unix() >= t0+r.ttl-2 && k.Expires().Unix() <= time.Now().Unix()+r.ttl+2)
+					if k.Permissions() != r.perm || gotPath != path || gotHash != h || !expOK || k.Contract() != e.b.Lic.Contract() {
+						errs <- fmt.Sprintf("with %d connections requesting keys at once: the request for %q with permissions %08b, ttl %d was answered with a key that has permissions %08b, target path %06x hash %08x (expected %06x %08x), expiry %d",
+							G, r.ch, r.perm, r.ttl, k.Permissions(), gotPath, gotHash, path, h, k.Expires().Unix())
+						return
+					}
+				}
+			}(g)
+		}
+		wg.Wait()
+		c := map[string]int{"round": round, "license": v, "goroutines": G}
+		select {
+		case m := <-errs:
+			vkit.ReportFailure(t.Name(), c, m, "")
+			t.Fatal(m)
+		default:
+		}
+		vkit.Record(t.Name(), c, vkit.OK(true, "keygen-concurrent"))
+	}
+}
